@@ -7,7 +7,7 @@ LEVEL = 'model_checking'
 
 
 def describe(tier):
-    hi = 80 if tier == 'quick' else 300
+    hi = 200 if tier == 'quick' else 300
     return {
         'rule': 'case = (key length in {16,24,32}, key #0..2, message length); ALL message lengths 0..%d%s; per case: '
                 'Decrypt(k,Encrypt(k,m))==m, len(c)==16+16*(len(m)//16+1), two encryptions differ (and their IVs differ), c[16:] equals '
@@ -24,7 +24,7 @@ def describe(tier):
 
 
 def units(tier, seed):
-    hi = 80 if tier == 'quick' else 300
+    hi = 200 if tier == 'quick' else 300
     us = []
     for kl in (16, 24, 32):
         for ki in range(3):
